@@ -12,6 +12,7 @@ from __future__ import annotations
 import operator
 from fractions import Fraction
 
+from pycv import absunits as AU
 from pycv import logic as L
 from pycv import spec
 from pycv.explore import Job
@@ -169,6 +170,8 @@ def job_to(K, src, tgt, inplace):
             O.fail("to:no-exception-for-valid-self-and-known-unit", props=("C05", "C19"), note=repr(e))
             return
         O.cover("to:returns")
+        O.prove("helper:to-matches-abstract-contract",
+                L.And(r.unit == tgt, L.eq(r.value, AU.convert(K, v, src, tgt)), kind_of(r) == K), props=HELPER_PROPS)
         O.prove("to:result-unit-is-target", r.unit == tgt, props=("C05",))
         O.prove("to:SI-magnitude-unchanged", L.eq(si(K, r.value, tgt), si(K, v, src)), props=("C05", "C07"))
         O.prove("to:result-kind-and-valid", L.And(type(r) is CLS[K], valid_goal(r)), props=("C05", "C19"))
@@ -250,6 +253,14 @@ def job_cmp(Ka, Kb, ua, ub, op):
             return
         O.cover("cmp:returns")
         t = L.truth(res)
+        if not c.concrete:
+            # CPython gives the right operand's method priority when its class is a proper subclass of the left's
+            swap = {"eq": "eq", "ne": "ne", "lt": "gt", "gt": "lt", "le": "ge", "ge": "le"}
+            if Ka != Kb and issubclass(CLS[Kb], CLS[Ka]):
+                at = AU.abs_cmp(swap[op], ("q", Kb, ub, y), ("q", Ka, ua, x))
+            else:
+                at = AU.abs_cmp(op, ("q", Ka, ua, x), ("q", Kb, ub, y))
+            O.prove("helper:cmp-matches-abstract-contract", L.Iff(t, at), props=HELPER_PROPS)
         X, Y = si(Ka, x, ua), si(Kb, y, ub)
         exact = {"eq": L.eq(X, Y), "ne": L.ne(X, Y), "lt": L.lt(X, Y), "le": L.le(X, Y), "gt": L.gt(X, Y),
                  "ge": L.ge(X, Y)}[op] if not c.concrete else \
@@ -319,19 +330,24 @@ def job_op(op, Ka, Kb, ua, ub):
         sa = snapshot(a) if Ka not in NUMS else None
         sb = snapshot(b) if Kb not in NUMS else None
         exact = {"add": L.add, "sub": L.sub, "mul": L.mul, "div": None}[op]
+        TA = ("n", x, Ka) if Ka in NUMS else ("q", Ka, ua, x)
+        TB = ("n", y, Kb) if Kb in NUMS else ("q", Kb, ub, y)
         try:
             r = OPS[op](a, b)
         except TypeError as e:
+            check_abs(O, op, TA, TB, ("TypeError",))
             O.cover("op:TypeError")
             if expected != "TypeError":
                 O.fail("op:defined-by-dimensional-analysis=>no-TypeError", props=("C06",), note=repr(e))
             return
         except ZeroDivisionError:
+            check_abs(O, op, TA, TB, ("ZeroDivisionError",))
             O.cover("op:ZeroDivisionError")
             O.prove("op:ZeroDivisionError-only-for-zero-divisor", L.And(op == "div", L.eq(Y, 0)), props=("C06",))
             _frames(O, a, sa, b, sb)
             return
         except ValueError as e:
+            check_abs(O, op, TA, TB, ("ValueError",))
             O.cover("op:ValueError")
             O.prove("op:ValueError-only-with-a-sign-constrained-kind", bool(constrained) and expected != "TypeError",
                     props=("C06", "C19"), note=repr(e))
@@ -344,6 +360,7 @@ def job_op(op, Ka, Kb, ua, ub):
             O.fail("op:no-unexpected-exception", props=("C06",), note=repr(e))
             return
         O.cover("op:returns")
+        check_abs(O, op, TA, TB, ("ok", r))
         if r is None:
             # the library's __sub__ falls off its except-branch: not a quantity, not an error
             O.fail("op:returns-a-result-not-None", props=("C06", "C19"), note="operator returned None")
@@ -374,6 +391,31 @@ def job_op(op, Ka, Kb, ua, ub):
                functions=[f"gearpy.units.units.{K}.__{n}__" for K in (Ka, Kb) if K not in NUMS
                           for n in _dunder(op)],
                meta=dict(family="op", op=op, Ka=Ka, Kb=Kb, ua=ua, ub=ub, expected=str(expected)))
+
+
+def check_abs(O, op, TA, TB, real):
+    """helper contract: the real operator agrees with the abstract semantics that SymQ executes"""
+    prior = []
+    parts = []
+    for cond, outcome in AU.absop(op, TA, TB):
+        here = L.And(*prior, cond) if prior else cond
+        if isinstance(outcome, str):
+            m = real[0] == outcome
+        elif real[0] != "ok" or real[1] is None:
+            m = False
+        elif outcome[0] == "num":
+            r = real[1]
+            m = (isinstance(r, (SymNum, int, float)) and not isinstance(r, bool)) and L.eq(r, outcome[1])
+        else:
+            r = real[1]
+            _, K, u, v = outcome
+            m = kind_of(r) == K and L.And(r.unit == u, L.eq(r.value, v))
+        parts.append(L.Implies(here, m))
+        prior.append(L.Not(cond))
+    O.prove("helper:op-matches-abstract-contract", L.And(*parts), props=HELPER_PROPS)
+
+
+HELPER_PROPS = ("helper",)
 
 
 def _nm(K, u):
